@@ -314,6 +314,8 @@ def r2(ctx):
     for body in facts.all_bodies():
         if body.path.startswith("<error::") or body.path.startswith("error::"):
             continue
+        if facts.new_and_unreachable(body):
+            continue  # an error built by new code outside the validation call graph is not a validation outcome
         base = re.sub(r"::\{closure#\d+\}$", "", body.path) if not body.j.get("coroutine_kind") else body.path
         n = len(body.aggregates(adt=r"^error::SignatureError$"))
         if n and base not in known_fns and body.path not in known_fns:
